@@ -4,6 +4,8 @@
 (* Lines (ndjson), obs = [ver, execs] sequences indexed by node - NP:      *)
 (*  {"k":"reset","wire":[{n,a,b,arr}..],"obs":..}   fresh graph, params = 1*)
 (*  {"k":"set","p":..,"v":..,"obs":..}                                     *)
+(*  {"k":"setbad","p":..,"err":..}  a message the parameter must reject    *)
+(*        (err: it did): no event, the parameter keeps its value           *)
 (*  {"k":"wire","n":..,"port":"A"|"B","s":..,"obs":..}                     *)
 (*  {"k":"arradd","n":..,"s":..,"obs":..} {"k":"arrdel","n":..,"kk":..}    *)
 (*  {"k":"read","n":..,"val":"<term>","obs":..}                            *)
@@ -61,6 +63,10 @@ TSet ==
     /\ Line.k = "set"
     /\ Consume(wire, [pval EXCEPT ![Line.p] = Line.v], [pev EXCEPT ![Line.p] = ev + 1], wev, ev + 1, {})
 
+TSetBad ==
+    /\ Line.k = "setbad"
+    /\ Consume(wire, pval, pev, wev, ev, IF Line.err THEN {} ELSE {"Harness.BadAccepted"})
+
 TRewire(w2) == Consume(w2, pval, pev, [wev EXCEPT ![Line.n] = ev + 1], ev + 1,
                        IF Acyclic(w2) THEN {} ELSE {"Harness.Cycle"})
 TWire ==
@@ -76,7 +82,7 @@ TRead ==
     /\ Consume(wire, pval, pev, wev, ev,
                IF Line.val = Term(wire, pval, Line.n) THEN {} ELSE {"C11.Fresh"})
 
-TNext == l <= Len(Trace) /\ (TReset \/ TSet \/ TWire \/ TArrAdd \/ TArrDel \/ TRead)
+TNext == l <= Len(Trace) /\ (TReset \/ TSet \/ TSetBad \/ TWire \/ TArrAdd \/ TArrDel \/ TRead)
 TSpec == TInit /\ [][TNext]_tvars
 TraceAccepted == TLCGet("stats").diameter - 1 = Len(Trace)
 =============================================================================
